@@ -37,3 +37,9 @@ class Body(Task):
         d = c * 2
         _emit(self.log, {"e": "end", "p": me, "pid": os.getpid()})
         return d
+
+
+class Body2(Body):
+    """Same body, with an upstream task among its parameters"""
+
+    up: Param[Optional[Task]] = None
